@@ -22,6 +22,7 @@ class Injector:
         self.fail_at = fail_at
         self.fired = False
         self.nfactor = 0
+        self.on_factor = None     # optional observer of the arguments of every factor call (used by C07 'restore')
 
     def hit(self, kind):
         idx = len(self.events)
@@ -39,6 +40,8 @@ class Injector:
 
             def factor(*fa, **fk):
                 J.nfactor += 1
+                if J.on_factor is not None:
+                    J.on_factor(fa, fk)
                 J.hit("factor")
                 f = fac(*fa, **fk)
 
@@ -202,6 +205,20 @@ def check_unknown(case, mat, sol, it_e, where):
                 msgs.append("field 'gap' = %r smaller than the gap %r of the returned vectors" % (rep, gap))
         elif not judge.isnum(rep) or not judge.close(rep, gap, sc):
             msgs.append("field 'gap' = %r but recomputed %r" % (rep, gap))
+        # slack fields: smallest margin of (snl, sl) resp. (znl, zl) to the boundary of the cone
+        for name, nl, lin in (("primal slack", snl, sl), ("dual slack", znl, zl)):
+            parts = ([float(nl.min())] if len(nl) else []) + ([rc.min_slack(lin, dims)] if rc.cdim(dims) else [])
+            if not parts:
+                continue
+            val = min(parts)
+            rep = sol.get(name)
+            scale = max(1.0, judge.nrm(lin), judge.nrm(nl))
+            if solver == "cp":
+                # the epigraph component is not returned: the reported minimum may be smaller, never larger
+                if not judge.isnum(rep) or rep > val + judge.ROUND * scale + judge.TINY:
+                    msgs.append("field %r = %r larger than the margin %r of the returned vectors" % (name, rep, val))
+            elif not judge.isnum(rep) or not judge.close(rep, val, scale):
+                msgs.append("field %r = %r but the returned vectors have margin %r" % (name, rep, val))
     return msgs
 
 
